@@ -84,7 +84,7 @@ def text(n, home, top=True):
     if k == 'col':
         return q(n[1], n[2], home) + '%s:%s' % (n[3], n[3])
     if k == 'name':
-        return n[2]
+        return n[2] if home[0] == n[1] else "'[%s]'!%s" % (n[1], n[2])
     if k == 'op':
         return '(%s%s%s)' % (text(n[2], home, False), n[1], text(n[3], home, False))
     if k == 'neg':
